@@ -11,7 +11,7 @@ VARIABLES l, s, r, vs
 Langs   == { B("en"), B("UND"), B("abcde") }
 Scripts == { <<>>, B("latn"), B("CYRL") }
 Regions == { <<>>, B("us"), B("419") }
-Vars    == { B("valencia"), B("1996"), B("VALENCIA"), B("abcde"), B("1abc") }
+Vars    == { B("valencia"), B("1996"), B("VALENCIA"), B("abcde"), B("1abc"), B("1959acad"), B("12345") }
 
 Init == l \in Langs /\ s \in Scripts /\ r \in Regions /\ vs = <<>>
 Next == /\ Len(vs) < MaxV
